@@ -24,7 +24,7 @@ var c07Keys = []string{"", "10", "9", "B", "a", "aa", "b", "\u00e9", "e\u0301", 
 type c07Case struct {
 	p   *gen.Path
 	doc interface{}
-	pre int // 0 none, 1 evaluation on a larger map first, 2 on a smaller map first
+	pre int // index into c07Preludes
 }
 
 type c07Job struct {
@@ -115,8 +115,18 @@ func (j *c07Job) Describe(i int) map[string]interface{} {
 	return map[string]interface{}{"unit": i, "sig": fmt.Sprintf("c07unit:%d", i)}
 }
 
-var c07Big = map[string]interface{}{"k1": 1.0, "k2": 2.0, "k3": 3.0, "k4": 4.0, "k5": 5.0, "k6": 6.0, "k7": 7.0}
-var c07Small = map[string]interface{}{"k1": 1.0}
+func c07Map(n int) map[string]interface{} {
+	m := map[string]interface{}{}
+	for i := 0; i < n; i++ {
+		m[fmt.Sprintf("k%02d", i)] = float64(i)
+	}
+	return m
+}
+
+// c07Preludes: evaluations performed (on maps of these sizes, in this order) before the
+// evaluation under test, so that the pooled key buffer has a history: larger, smaller,
+// larger-then-smaller, much larger.
+var c07Preludes = [][]int{nil, {7}, {1}, {12}, {12, 3}, {3, 12}}
 
 func (j *c07Job) runOnce(pathText string, doc interface{}, pre int, prefix []int) (x *sched.Exec, res impl.CallResult) {
 	sched.ResetPools()
@@ -126,11 +136,8 @@ func (j *c07Job) runOnce(pathText string, doc interface{}, pre int, prefix []int
 			res = impl.CallResult{ErrType: "parse:" + pr.ErrType}
 			return
 		}
-		switch pre {
-		case 1:
-			impl.Call(pr.F, gen.Clone(c07Big))
-		case 2:
-			impl.Call(pr.F, gen.Clone(c07Small))
+		for _, n := range c07Preludes[pre] {
+			impl.Call(pr.F, c07Map(n))
 		}
 		res = impl.Call(pr.F, doc)
 	})
@@ -156,9 +163,9 @@ func (j *c07Job) RunUnit(i int, c *run.Ctx) {
 			pathText := gen.Render(p, nil).Text
 			out := spec.Eval(p, doc, j.env.Model)
 			want := out.Values()
-			for pre := 0; pre < 3; pre++ {
-				if pre != 0 && di%4 != 0 {
-					continue // pool-recycling preludes on every fourth document
+			for pre := range c07Preludes {
+				if pre != 0 && di%4 != 0 && len(doc.(map[string]interface{})) < 5 {
+					continue // pool-recycling preludes on every fourth small document and on every large one
 				}
 				violated := false
 				orders := map[string]bool{}
@@ -215,7 +222,7 @@ func init() {
 			"keys: the empty key, \"10\", \"9\", \"B\", \"a\", \"aa\", \"b\", precomposed and decomposed e-acute, \"~\", U+FFFF, U+1F600 (byte order differs from rune, UTF-16 and length order)",
 		},
 		Bounds: map[string]string{
-			"quick":    "16 paths with wildcard, filter, recursive, multi-name and aggregate steps x objects over every 2-, 3- and 4-key subset of 12 keys (values: numbers, objects, nested objects) plus objects of 5..12 keys; every iteration order at ONE map range per execution; every fourth document also after an evaluation on a larger / smaller map with pool answers enumerated",
+			"quick":    "16 paths with wildcard, filter, recursive, multi-name and aggregate steps x objects over every 2-, 3- and 4-key subset of 12 keys (values: numbers, objects, nested objects) plus objects of 5..12 keys; every iteration order at ONE map range per execution; every fourth small document and every 5..12-key document also after evaluations on maps of 7, 1, 12, 12-then-3 and 3-then-12 keys (pool recycling) with pool answers enumerated",
 			"thorough": "same documents; orders deviating at up to TWO map ranges per execution",
 		},
 		New: newC07,
